@@ -39,6 +39,53 @@ Fixpoint taylor (factor : Z) (bound : nat) (cmp x new_x phi : Qc) (divisor : Z) 
 Definition taylor_comparison (bound : nat) (cmp x : Qc) : outcome :=
   taylor TAYLOR_ERR_FACTOR bound cmp x x (QcZ 1) 1.
 
+(* ---- the same loop on integers (what the correspondence run evaluates) -------------
+   With cmp = qn/qd, x = a/b (qd, b > 0) the state entering iteration j is kept on the
+   common denominator D = b^j j!:  new_x = P/D (P = a^j),  phi = M/D.  No gcd is ever
+   taken, so vm_compute needs milliseconds where the canonical-rational loop needs
+   minutes on 64-bit stakes.  ProofsFast.v proves [taylor_fast] EQUAL to [taylor] for all
+   inputs (C08_fast_model); every theorem is stated on [taylor]. *)
+Definition frac (n d : Z) : Qc := Q2Qc (n # Z.to_pos d).
+
+Fixpoint taylor_fast (factor : Z) (bound : nat) (qn qd a b P M D j : Z) : outcome :=
+  match bound with
+  | O => Cap
+  | S bd =>
+    let j' := (j + 1)%Z in
+    let D' := (D * b * j')%Z in
+    let M' := ((M + P) * b * j')%Z in                   (* phi + new_x       = M'/D' *)
+    let P' := (P * a)%Z in                              (* new_x * x / (j+1) = P'/D' *)
+    let E := (Z.abs P' * factor)%Z in                   (* |new_x| * factor  = E /D' *)
+    if (qd * (M' + E) <? qn * D')%Z then Lost
+    else if (qn * D' <? qd * (M' - E))%Z then Won
+    else taylor_fast factor bd qn qd a b P' M' D' j'
+  end.
+
+(* second refinement: carry ND = qn*D, QM = qd*M, QP = qd*P so that every product is
+   (large) * (word-sized); equal to [taylor_fast] by ring identities (ProofsFast.v) *)
+Fixpoint taylor_fast2 (factor : Z) (bound : nat) (a b ND QM QP j : Z) : outcome :=
+  match bound with
+  | O => Cap
+  | S bd =>
+    let j' := (j + 1)%Z in
+    let bj := (b * j')%Z in
+    let ND' := (ND * bj)%Z in
+    let QM' := ((QM + QP) * bj)%Z in
+    let QP' := (QP * a)%Z in
+    let QE := (Z.abs QP' * factor)%Z in
+    if (QM' + QE <? ND')%Z then Lost
+    else if (ND' <? QM' - QE)%Z then Won
+    else taylor_fast2 factor bd a b ND' QM' QP' j'
+  end.
+
+(* the literal loop is itself fast when x has a small denominator (x = 0 in particular,
+   where the integer loop would drag 1000! along for 1000 iterations) *)
+Definition taylor_comparison_fast (bound : nat) (cmp x : Qc) : outcome :=
+  let qn := Qnum (this cmp) in let qd := Z.pos (Qden (this cmp)) in
+  let a := Qnum (this x) in let b := Z.pos (Qden (this x)) in
+  if (b <? 1048576)%Z then taylor_comparison bound cmp x
+  else taylor_fast2 TAYLOR_ERR_FACTOR bound a b (qn * b) (qd * b) (qd * a) 1.
+
 Definition EV_MAX : Z := (2 ^ 512)%Z.
 
 (* exact value of a finite f64 given as mantissa * 2^exponent *)
@@ -75,6 +122,21 @@ Definition lottery (phi : Qc) (c : option Qc) (ev stake total : Z) : result verd
 Definition won (phi : Qc) (c : option Qc) (ev stake total : Z) : result bool :=
   rmap verdict_bool (lottery phi c ev stake total).
 
-(* correspondence entry point: phi_f = pm * 2^pe; c = cm * 2^ce when finite *)
+(* the same wrapper around the integer loop *)
+Definition lottery_fast (phi : Qc) (c : option Qc) (ev stake total : Z) : result verdict :=
+  if phi_is_one phi then Ok Shortcut
+  else match c with
+       | None => Panic
+       | Some c =>
+         if (total =? 0)%Z then Panic
+         else Ok (Taylor (taylor_comparison_fast (N.to_nat TAYLOR_BOUND) (lottery_q ev) (lottery_x c stake total)))
+       end.
+
+(* correspondence entry points: phi_f = pm * 2^pe; c = cm * 2^ce when finite.
+   [run] evaluates the integer loop (proved equal to the literal one);
+   [run_literal] evaluates the literal transcription itself (used on a sample). *)
 Definition run (pm pe : Z) (c : option (Z * Z)) (ev stake total : Z) : obs :=
+  ORes (rmap (fun v => OB (verdict_bool v))
+     (lottery_fast (dyadic pm pe) (option_map (fun p => dyadic (fst p) (snd p)) c) ev stake total)).
+Definition run_literal (pm pe : Z) (c : option (Z * Z)) (ev stake total : Z) : obs :=
   ORes (rmap OB (won (dyadic pm pe) (option_map (fun p => dyadic (fst p) (snd p)) c) ev stake total)).
